@@ -70,6 +70,24 @@ struct Sim {
     }
     mc::harness_fail("cannot single-step hexsim::Processor::run with any (cycles,maxCycles) setting");
   }
+  // Uninterrupted run of exactly k instructions in ONE call of run() (or fewer if the program exits): calibrated like step().
+  size_t kCycles = 0; long kMaxDelta = -1; bool kCalibrated = false;
+  void calibrateK() {
+    static const long opts[][2] = {{0, -1}, {1, 0}, {0, 0}, {1, 1}, {2, 1}};
+    for (auto &o : opts) {
+      create();
+      for (size_t i = 0; i < 64; i++) v.mem[i] = 0x31313131;
+      *v.cycles = o[0]; *v.maxCycles = 5 + o[1]; *v.running = true;
+      int kind; std::string err; ad::sim_run(v, &kind, &err);
+      if (kind == 0 && *v.pc == 5) { kCycles = o[0]; kMaxDelta = o[1]; kCalibrated = true; return; }
+    }
+    mc::harness_fail("cannot make hexsim::Processor::run execute exactly k instructions with any (cycles,maxCycles) setting");
+  }
+  int runK(size_t k, int *kind, std::string *err) {
+    if (k == 1) return step(kind, err);
+    *v.cycles = kCycles; *v.maxCycles = k + kMaxDelta; *v.running = true;
+    return ad::sim_run(v, kind, err);
+  }
   // Execute exactly one instruction. kind!=0 => exception (what in err)
   int step(int *kind, std::string *err) {
     *v.cycles = stepCycles; *v.maxCycles = stepMax; *v.running = true;
